@@ -39,6 +39,20 @@ def fid_packing(n0: int, n1: int, n2: int) -> bool:
         ok = ok & (d.desc_tag.tag_location == d.extent_location() - iso.udf_main_descs.partitions[0].part_start_location)
         off = off + udfmod.UDFFileIdentifierDescriptor.length(len(d.fi))
     ok = ok & (root.info_len == off) & (root.log_block_recorded == h.cdiv(off, 2048))
-    # hide the stub descriptors (no file entry) from the span collector's walk and check the global allocation
+    ok = ok & skel.spans_ok(iso, skel.collect_spans(iso))
+    # ... and back: remove the three symbolic-length identifiers again (the area shrinks back across the boundary), then two of the
+    # concrete ones through the public API; after every step the recorded information length equals the sum of the identifiers left and
+    # the global allocation is sound and exact
+    for d in list(root.fi_descs[-3:]):
+        freed = root.remove_file_ident_desc_by_name(d.fi, 2048) * 2048
+        iso._finish_remove(freed, True)
+    iso.rm_file(iso_path='/F000.;1')
+    iso.rm_file(iso_path='/F001.;1')
+    iso.force_consistency()
+    off = 0
+    for d in root.fi_descs:
+        ok = ok & (d.extent_location() == first + off // 2048)
+        off = off + udfmod.UDFFileIdentifierDescriptor.length(len(d.fi))
+    ok = ok & (root.info_len == off)
     ok = ok & skel.spans_ok(iso, skel.collect_spans(iso))
     return h.post(ok)
